@@ -20,6 +20,10 @@ pub struct ClaimsCase {
 
 fn values_for(which: &str) -> Vec<(Value, Form)> {
     let all = value_alphabet();
+    if which == "hostile" {
+        // every hostile text as a string value
+        return crate::domains::hostile_texts().into_iter().map(|h| (json!(h), Form::TupleStr)).collect();
+    }
     if which == "ws" {
         // all 8 custom keys (incl. the white-space-only and the long one) with two values: 3^8 states
         return [0usize, 5].iter().map(|i| all[*i].clone()).collect();
@@ -83,6 +87,7 @@ pub fn run(tier: &str) -> i32 {
         plan.push((Proto::V4L, "quick", 3, false));
         plan.push((Proto::V4L, "ws", 8, false));
         plan.push((Proto::V4L, "full", 1, false)); // one key, every value of the alphabet
+        plan.push((Proto::V4L, "hostile", 1, false)); // one key, every hostile text as value
         plan.push((Proto::V4L, "quick", 1, true));
         for p in Proto::ALL {
             if p != Proto::V4L {
@@ -93,6 +98,7 @@ pub fn run(tier: &str) -> i32 {
         plan.push((Proto::V4L, "full", 4, false));
         plan.push((Proto::V4L, "quick", 5, false));
         plan.push((Proto::V4L, "ws", 8, false));
+        plan.push((Proto::V4L, "hostile", 2, false));
         plan.push((Proto::V4L, "quick", 1, true));
         for p in Proto::ALL {
             if p != Proto::V4L {
@@ -158,7 +164,52 @@ pub fn run(tier: &str) -> i32 {
     let seq_exec = seq.executions;
     all.merge(seq);
 
-    all.executions = REPLAYS.load(Ordering::Relaxed);
+    // ---- hostile texts as claim keys (with a second, ordinary claim next to them), every protocol
+    {
+        let accs = par_units(&Proto::ALL.to_vec(), |p| {
+            let mut acc = Acc::default();
+            crate::adapter::freeze_default_clock();
+            let key = crate::domains::key_pool(*p)[0].clone();
+            let hostile = crate::domains::hostile_texts();
+            for (i, h) in hostile.iter().enumerate() {
+                if matches!(p, Proto::V1P | Proto::V3P) && i % 4 != 0 {
+                    continue; // the slow signers take every fourth
+                }
+                let other = &hostile[(i + 7) % hostile.len()];
+                let ops = vec![
+                    crate::adapter::BOp::Claim(crate::adapter::ClaimSpec { key: h.clone(), value: json!(other), form: Form::TupleString }),
+                    crate::adapter::BOp::Claim(crate::adapter::ClaimSpec { key: "plain".into(), value: json!(h), form: Form::TupleStr }),
+                    crate::adapter::BOp::Build,
+                ];
+                let (ev, _) = crate::adapter::with_rng_script(vec![vec![3u8; 32]], || crate::adapter::build_history(*p, crate::adapter::Layer::Generic, &key.sk, &ops));
+                acc.executions += 1;
+                acc.see(&(p.name(), h));
+                let got = match ev.last() {
+                    Some(crate::adapter::BEvent::Built(crate::adapter::Out::Ok(t))) => match crate::adapter::parse_history(*p, crate::adapter::Layer::Generic, false, &[key.pk.clone()], &[t.clone()], &[crate::adapter::POp::Parse(0, 0)]).last() {
+                        Some(crate::adapter::PEvent::Parsed(crate::adapter::Out::Ok(v), _)) => Some(v.clone()),
+                        _ => None,
+                    },
+                    _ => None,
+                };
+                let mut want = serde_json::Map::new();
+                want.insert(h.clone(), json!(other));
+                want.insert("plain".into(), json!(h));
+                if got == Some(Value::Object(want.clone())) {
+                    acc.controls_ok += 1;
+                } else {
+                    acc.violate(
+                        format!("C14|{}|hostile-key-or-value", p.name()),
+                        format!("set_claim(({:?}, {:?})); set_claim((\"plain\", {:?})); build; parse -> {:?}, expected {}", h, other, h, got, Value::Object(want)),
+                        json!({"hostile_key": h}),
+                    );
+                }
+            }
+            acc
+        });
+        all.merge(Acc::merge_all(accs));
+    }
+
+    all.executions += REPLAYS.load(Ordering::Relaxed);
     all.impl_calls = all.executions * 2;
     all.controls_ok = *all.hist.get("sequence:conforms").unwrap_or(&0);
     let extra = json!({
@@ -173,6 +224,10 @@ pub fn run(tier: &str) -> i32 {
 }
 
 pub fn replay(case: &Value) -> i32 {
+    if case.get("hostile_key").is_some() {
+        println!("this finding comes from the hostile-key pass: re-run `./check C14 quick`");
+        return 2;
+    }
     let Ok(cc) = serde_json::from_value::<ClaimsCase>(case["claims_case"].clone()) else { crate::report::machinery_error("replay file has no claims_case") };
     let values = values_for(&cc.alphabet);
     let v1 = replay_and_judge(cc.proto, &cc.path, &values);
